@@ -128,6 +128,11 @@ func corpus(repo string) [][]byte {
 			out = append(out, []byte(def+use), []byte(use+def))
 		}
 	}
+	// ;assert lines with a second semicolon, valid non-ASCII letters and digits outside comments
+	for _, s := range []string{";assert 1 ; remark\n dat 0\n", ";assert 1;\n dat 0\n", ";assert ;\n dat 0\n", ";assert CORESIZE==CORESIZE ; ok\n", " dat 0 ;assert 0 ; x\n",
+		"\u00e9 dat 0, 0\n", "jmp sta\u0155t\nsta\u0155t dat 0\n", "\u03bb equ 1\n dat \u03bb\n", "dat 0\n\u00e9", "\u5b57 dat 1\n", "mov \u0661, 2\n", "x\u00e9 equ 2\n dat x\u00e9\n", "dat 0 ; \u00e9\n"} {
+		out = append(out, []byte(s))
+	}
 	// expressions that stop in the middle, at every use site
 	for _, head := range []string{" dat ", "x equ ", " dat 0\n org ", " dat 0\n end ", ";assert ", "for ", " mov 1, #"} {
 		for _, tail := range []string{"1+", "1+-", "(-", "4/-+", "--", "-", "+", "1*", "(", ")", "1)", "((1)", "1 2", "*", "1/", "1%-", "-(", "+-+-"} {
